@@ -772,7 +772,7 @@ def roi_from_points(
     _in = np.clip(np.floor(xy.min(axis=0)), _lo, _hi).astype("int32") - padding
     _out = np.clip(np.ceil(xy.max(axis=0)), _lo, _hi).astype("int32") + padding
 
-    if align is not None:
+    if align:  # None and 0 both mean "no alignment"
         _in = align_down(_in, align)
         _out = align_up(_out, align)
 
